@@ -24,7 +24,8 @@ import (
 // descriptions; AddEntity, RemoveEntity, re-adding a removed entity, GetOrAddFeature, AddFunctionType,
 // SetDescriptionString, NextFeatureId) interleaved with detailed discovery reads from a peer subscribed
 // to NodeManagement, a peer subscribed only to another local feature, and a peer that toggles its
-// NodeManagement subscription. Oracles (a)-(d) of DESIGN.md, C07.
+// NodeManagement subscription; in every second case a "mute" peer (x_mute.go) is the first NodeManagement
+// subscriber. Oracles (a)-(d) of DESIGN.md, C07.
 //
 // conc / conc-race: 8 goroutines call GetOrAddFeature for 2-3 (type, role) pairs and NextFeatureId on
 // one entity while a rendezvous at GetOrAddFeature.afterMiss holds the first k of them between the
@@ -42,7 +43,8 @@ func init() {
 		ID:    "C07",
 		Floor: 200,
 		Rule: "sequential: case = seeded history of 12-20 operations (new entity with 1-5 features x 0-4 functions, AddEntity, RemoveEntity, re-add, GetOrAddFeature new/existing, AddFunctionType, SetDescriptionString, NextFeatureId, " +
-			"toggle of a NodeManagement subscription, discovery read from one of three peers) on one local device; non-trivial if at least two discovery replies, one AddEntity and one RemoveEntity notification were judged; distinct = distinct operation-kind sequences. " +
+			"toggle of a NodeManagement subscription, discovery read from one of three peers) on one local device; in every second case a fourth peer whose connection has no write handler (every send to it fails) " +
+			"subscribed to NodeManagement before the others; non-trivial if at least two discovery replies, one AddEntity and one RemoveEntity notification were judged; distinct = distinct operation-kind sequences. " +
 			"conc: case = (k of the rendezvous, number of (type, role) pairs, how many of them exist beforehand), 8 goroutines; non-trivial if the rendezvous at GetOrAddFeature.afterMiss completed with all k goroutines inside the window and two of them asked for the same (type, role); " +
 			"distinct = distinct (configuration, arrival order of the goroutines at the hook). " +
 			"read-conc: case = local device with 4-6 entities; one goroutine sends 40 discovery reads as a peer while another removes and re-adds entities that are not the last of the list (seeded order); every reply must equal one of the " +
@@ -52,6 +54,7 @@ func init() {
 			"not demanded: the entity description in the announcement, the partial sub-flags of operations, the content of the feature list of a 'removed' notification, datagrams other than detailed discovery data (use case notifications accompany RemoveEntity)",
 			"AddFunctionType is only called once per function and only on server features (it is documented to ignore client features); the heartbeat function is not added (C16)",
 			"the reference for the stack-built entity [0] is read through Features()/Operations(); for all other entities it is what the harness passed to the API",
+			"'each peer subscribed to node management' includes the peers whose entry follows that of a peer with a broken connection: the mute peer (SetupRemoteDevice with a nil writer) is not observed itself, only its effect on the others",
 		},
 		Parts: []rig.Part{
 			{Name: "sequential", Cases: func(t rig.Tier) int { return map[rig.Tier]int{rig.Quick: 300, rig.Thorough: 5000}[t] }, Run: c07Seq, Procs: 2},
@@ -207,6 +210,20 @@ func c07Seq(c *rig.Ctx) {
 		p.Announce([]rig.FS{rig.NMFS, clientDC})
 		peers = append(peers, p)
 	}
+	// in every second case a "mute" peer (connection without write handler: every send to it fails) subscribed to
+	// NodeManagement BEFORE everybody else; a send fault on its connection must not cost the others their notification
+	mute := c.Index%2 == 1
+	if mute {
+		mp := addMutePeer(w, 0)
+		defer w.Local.RemoveRemoteDeviceConnection(mp.Ski)
+		if why := muteSubscribeFirst(w, mp, []rig.FS{rig.NMFS, clientDC}, []muteSub{{mp.NM(), rig.LNM, model.FeatureTypeTypeNodeManagement}}); why != "" {
+			c.Inconclusive("setup of the mute peer: %s", why)
+			return
+		}
+		w.Core.Take()
+		trace = append(trace, "peer 'mute0' (its connection has no write handler) subscribed to NodeManagement before peer0")
+		c.Count("cases_with_a_mute_first_subscriber", 1)
+	}
 	subscribedNM := []bool{true, false, false}
 	mc := peers[0].Subscribe(peers[0].NM(), rig.LNM, model.FeatureTypeTypeNodeManagement)
 	if res := rig.Classify(peers[0].Tap.Take(), mc); res.Success != 1 {
@@ -356,6 +373,9 @@ func c07Seq(c *rig.Ctx) {
 	// (c) notifications after AddEntity / RemoveEntity
 	var notesAdd, notesRem, reads int
 	checkNotify := func(e *c07RE, state model.NetworkManagementStateChangeType) {
+		if mute {
+			c.Count("entity_notifications_judged_behind_a_mute_subscriber", 1)
+		}
 		for i, p := range peers {
 			outs := p.Tap.Take()
 			var disc []model.DatagramType
@@ -646,7 +666,7 @@ func c07Seq(c *rig.Ctx) {
 
 	h := fnv.New64a()
 	h.Write([]byte(strings.Join(kinds, ";")))
-	c.Shape(fmt.Sprintf("%x", h.Sum64()))
+	c.Shape(fmt.Sprintf("%x mute=%v", h.Sum64(), mute))
 	c.NonTrivial(reads >= 2 && notesAdd >= 1 && notesRem >= 1)
 	c.Count("discovery_reads", int64(reads))
 	c.Count("AddEntity_notifications_checked", int64(notesAdd))
@@ -660,7 +680,7 @@ func c07Seq(c *rig.Ctx) {
 	if len(trace) > 30 {
 		trace = trace[:30]
 	}
-	c.Sample(map[string]any{"first_steps": trace, "operation_kinds": kinds})
+	c.Sample(map[string]any{"first_steps": trace, "operation_kinds": kinds, "mute_first_subscriber": mute})
 }
 
 // ---- concurrent part
